@@ -139,6 +139,23 @@ class C03(runner.Prop):
                 ctx.fail(f'spec_repr/{name}', f'{spec!r} vs {s!r}')
             if s.namespace != spec.namespace or s.none_is_leaf != spec.none_is_leaf:
                 ctx.fail(f'spec_attrs/{name}', f'{s.namespace!r} vs {spec.namespace!r}')
+        # equal treespecs may still differ in what == does not look at (recorded dict insertion order): every entry
+        # point's treespec must rebuild the same tree, compared with key order
+        toks = [U.Leaf(1001 + 2 * i) for i in range(n)]
+        try:
+            base = spec.unflatten(toks)
+        except Exception as e:  # noqa: BLE001
+            base = None
+            if 'partial' not in repr(case['t']):
+                ctx.fail('spec_unflatten/flatten_raises', f'{type(e).__name__}: {e}')
+        if base is not None:
+            for name, s in (('with_path', spec2), ('with_accessor', spec3), ('tree_structure', spec6)):
+                try:
+                    d = model.same_tree(base, s.unflatten(toks))
+                except Exception as e:  # noqa: BLE001
+                    d = f'raises {type(e).__name__}: {e}'
+                if d:
+                    ctx.fail(f'spec_unflatten/{name}', d)
         sp = spec.paths()
         for name, p in (('with_path', paths2), ('tree_paths', paths7), ('spec2.paths', spec2.paths())):
             if not compare.paths_same(p, sp):
